@@ -125,6 +125,7 @@ pub(crate) mod verif_kani_imm {
     fn csr_imm_conversions() {
         let x: i32 = kani::any();
         let u: u32 = kani::any();
+        kani::cover!(x < 0 && u >= 1u32 << 31, "values with the top bit set");
         let c = CsrImm::from(Imm(x));
         assert!(c.0.to_ne_bytes() == x.to_ne_bytes(), "Imm -> CsrImm changed the bit pattern");
         assert!((c.0 as i64) - (x as i64) == if x < 0 { 1i64 << 32 } else { 0 });
@@ -143,6 +144,7 @@ pub(crate) mod verif_kani_imm {
         use crate::parser::{Range, Token, TokenType};
         let c: char = kani::any();
         let t = Token::new_without_text(TokenType::Char(c), Range::default(), uuid::Uuid::nil());
+        kani::cover!(c as u32 > 0xFFFF, "a character outside the basic plane");
         let r = Imm::try_from(t);
         assert!(matches!(r, Ok(Imm(v)) if v >= 0 && v as u32 == c as u32), "char literal read as a different value");
     }
@@ -150,7 +152,7 @@ pub(crate) mod verif_kani_imm {
     // ===================== (b) bounded: the real from_str against the oracle =======================
     /// Model of `str::to_lowercase` on ASCII input (std documents the two as equal there).  The real
     /// function is Unicode-table driven and intractable for symbolic bytes (3 symbolic bytes: > 300 s);
-    /// `lowercase_model_ascii` checks the model against the real function on every 1-byte ASCII string.
+    /// `lowercase_model_ascii_q0..q3` check the model against the real function on every 1-byte ASCII string.
     pub fn ascii_lower_model(s: &str) -> String { s.to_ascii_lowercase() }
 
     /// every character that plays a role in a literal + some that do not
@@ -185,18 +187,20 @@ pub(crate) mod verif_kani_imm {
                     buf[P + i] = c;
                     i += 1;
                 }
-                // one call per length, written out (a loop variable as slice length makes CBMC treat the length as symbolic)
+                // one call per length, written out (the same calls in a `while k <= N` loop were several times slower)
                 $( $check(&buf[..P + $k]); )*
             }
         };
     }
 
-    // -- every string over the alphabet, length <= 6
+    // -- every string over the alphabet, length <= 8
     lit_harness!(from_str_any_le2, check, b"", [0, 1, 2], 2, in_alpha, in_alpha, 8);
     lit_harness!(from_str_any_3, check, b"", [3], 3, in_alpha, in_alpha, 9);
     lit_harness!(from_str_any_4, check, b"", [4], 4, in_alpha, in_alpha, 10);
     lit_harness!(from_str_any_5, check, b"", [5], 5, in_alpha, in_alpha, 11);
     lit_harness!(from_str_any_6, check, b"", [6], 6, in_alpha, in_alpha, 12);
+    lit_harness!(from_str_any_7, check, b"", [7], 7, in_alpha, in_alpha, 13);
+    lit_harness!(from_str_any_8, check, b"", [8], 8, in_alpha, in_alpha, 14);
     // -- hexadecimal, one harness per digit-string length: 8 digits = all 32-bit values, 9 = one digit too many
     lit_harness!(from_str_hex_pos_5, check, b"0x", [5], 5, in_alpha, in_alpha, 13);
     lit_harness!(from_str_hex_pos_6, check, b"0x", [6], 6, in_alpha, in_alpha, 14);
